@@ -891,3 +891,21 @@ Corollary held_buffer_flushable c sched b x ep : fcfg c ->
 Proof.
   intros F Hx M E. apply binv_flush; try assumption. exact (Forall_nth_error _ _ _ _ (bps_flushable c sched F) Hx).
 Qed.
+
+(* flushRetryBuffers reaches the ground whatever the leader lookups answer: it stops at level 0 or at a level whose own
+   chaser is still expected (which, by no_lost_chaser, is in transit); every level it passed is empty and expects no
+   chaser.  In particular a failed lookup at an intermediate level does not strand the levels below it. *)
+Corollary flush_reaches_ground c t p h hasbp leader lv stamp ls :
+  has_crash (snd (flush c t p h hasbp leader lv stamp ls)) = false ->
+  let r := fst (flush c t p h hasbp leader lv stamp ls) in
+  let h' := fst (fst (fst r)) in let lv' := snd r in
+  (h' < h)%nat /\ (h' = 0%nat \/ l_chaser (get_level h' lv') = true) /\
+  (forall i, (h' <= i < h)%nat -> l_buf (get_level i lv') = []) /\
+  (forall i, (h' < i < h)%nat -> l_chaser (get_level i lv') = false).
+Proof.
+  intros Hc. pose proof (flush_levels c t p h hasbp leader lv stamp ls) as FL. pose proof (flush_skips c t p h hasbp leader lv stamp ls) as FS.
+  destruct (flush c t p h hasbp leader lv stamp ls) as [[[[h' hb] ld] lv'] effs]. cbn [fst snd] in *.
+  destruct (FL Hc) as (A & B & C & D & E & F). split; [exact B|]. split.
+  - destruct D as [D|D]; [right; rewrite C; exact D|left; exact D].
+  - split; [exact E|]. intros i Hi. rewrite C. apply FS, Hi.
+Qed.
